@@ -63,6 +63,47 @@ def c18(run, tier):
     paths_family(run, tier, "C18", "MC_C18.cfg", False, True, "paths", Q(tier, 5, 6), Q(tier, 5, 6))
 
 
+def values_family(run, tier, fam, overrides=None):
+    ov = {"Family": '"%s"' % fam}
+    ov.update(overrides or {})
+    cfg = run.cfg("MC_Values.cfg", ov, "gen.%s.cfg" % fam)
+    # one TLC run checks the family's laws on the specification and generates the cases
+    rep = run.tlc_gen_replay("MC_Values", cfg, fam, timeout=Q(tier, 400, 2400))
+    run.absorb(rep, VALUE_ASPECTS)
+
+
+def values_traces(run, tier):
+    for i in range(Q(tier, 1, 4)):
+        run.trace_validate(["-fam", "values", "-n", str(Q(tier, 2500, 20000)), "-sub", str(i)], "values%d" % i)
+
+
+def c04(run, tier):
+    values_family(run, tier, "C04n")
+    values_family(run, tier, "C04s", {"StrLen": Q(tier, 3, 4)})
+    cfg = run.cfg("Gen_C01.cfg", {"MaxNodes": Q(tier, 4, 5), "EmitFam": '"C04"'}, "gen04.cfg")
+    rep = run.tlc_gen_replay("MC_C01", cfg, "nodes", timeout=Q(tier, 300, 1800))
+    run.absorb(rep, VALUE_ASPECTS)
+    values_traces(run, tier)
+
+
+def c05(run, tier):
+    values_family(run, tier, "C05")
+    values_traces(run, tier)
+
+
+def c06(run, tier):
+    values_family(run, tier, "C06")
+    values_traces(run, tier)
+
+
+def c07(run, tier):
+    values_family(run, tier, "C07u", {"StrLen": Q(tier, 4, 5)})
+    values_family(run, tier, "C07b")
+    values_family(run, tier, "C07t")
+    values_family(run, tier, "C07s")
+    values_traces(run, tier)
+
+
 def raise_spec(run, what, out):
     from check import Infra
     raise Infra("%s -- the specification itself is inconsistent (machinery problem, not a verdict):\n%s" % (what, run.tail(out)))
@@ -80,6 +121,22 @@ PROPS = {
             "duplicates, foreign nodes, Pos() monotonicity and direction", "exhaustive": {"quick": True, "thorough": True}, "assumptions": BASE_ASSUME},
     "C18": {"run": c18, "rule": PATH_RULE + "; pool: 10 relative suffixes from every start node, 5 prefixes x suffixes from the root, P/f() and f(P) for the "
             "seven context-dependent builtins", "exhaustive": {"quick": True, "thorough": True}, "assumptions": BASE_ASSUME},
+    "C04": {"run": c04, "rule": "TLC enumerates (a) 33 numerals incl. NaN, +-Infinity, +-0, negative and non-integral dyadics: string()/concat()/boolean()/not(not())/predicate use; "
+            "(b) every character sequence of length <= StrLen (quick 3, thorough 4) over {0 1 9 . - + e sp nl nbsp x I} plus 17 hand-picked spellings (Infinity, NaN, 0x10, 1e3, padded, -0 ...): "
+            "number(), +0, =1, <2, unary minus, boolean(); (c) every node of every Store-machine document: string(), number(), boolean(), GetCursorString and node-set -> string through 12 axes "
+            "(first node in document order); laws checked by TLC on the specification: read-back, no exponent, integer without point; random recorded sessions judged by Trace_Xsel. "
+            "non-trivial = specified value is not the empty string / NaN / false / empty set",
+            "exhaustive": {"quick": True, "thorough": True},
+            "assumptions": BASE_ASSUME + ["numbers: only the exact abstract domain (dyadic rationals of small magnitude, correctly rounded small quotients, NaN, infinities, both zeros); doubles beyond it (>2^31, subnormals) are not judged by this check"]},
+    "C05": {"run": c05, "rule": "TLC enumerates all ordered pairs of 40 operands (11 node-sets incl. empty / multi-valued / reverse-ordered, 15 numbers incl. NaN +-0 +-Infinity, 12 strings, 2 booleans) x 6 operators, "
+            "operands bound as variables and written inline; laws checked on the specification: L<R == R>L, symmetry of = and !=, empty-set and NaN laws, existence of A=B and A!=B", "exhaustive": {"quick": True, "thorough": True}, "assumptions": BASE_ASSUME},
+    "C06": {"run": c06, "rule": "TLC enumerates all ordered pairs of 44 operands (33 numerals, 11 node-sets) x {+ - * div mod}, unary minus, floor/ceiling/round/number, sum/count, as variables and inline literals; "
+            "laws on the specification: totality, commutativity, mod sign/magnitude, floor <= x <= ceiling; results compared bit-exactly (NaN-aware, sign of zero)", "exhaustive": {"quick": True, "thorough": True},
+            "assumptions": BASE_ASSUME + ["numbers: the exact abstract domain only (see C04)"]},
+    "C07": {"run": c07, "rule": "TLC enumerates all strings of length <= StrLen (quick 4, thorough 5) over {a b sp nl nbsp w2 w4 cm} for the unary functions, all pairs of strings <= 3 over {a b w2} for the binary ones, "
+            "all triples for translate, 4 mixed-width strings x 38 x 38 position/length numerals for substring; the harness instantiates the width classes with seeded runes and compares exact strings; "
+            "the recommendation's printed examples are ASSUMEs of the model", "exhaustive": {"quick": True, "thorough": True},
+            "assumptions": BASE_ASSUME + ["Unicode: an 8-symbol alphabet of width/class representatives (1-4 byte UTF-8, combining mark, XML and non-XML white space), re-instantiated by VERIF_SEED"]},
     "C01": {
         "run": c01,
         "rule": "TLC enumerates every document the Store machine can build within the node bound (all kinds, names a/b x {no namespace,U1}), "
